@@ -124,6 +124,47 @@ func litmusPrograms() []litmus {
 			}
 			return inst([]func(){holder, waiter}, func() string { return res })
 		}},
+		{name: "nested-timers-shorter-first", outcomes: []string{"inner waited-for=[1s]", "outer waited-for=[1s]"}, make: func() *sched.Instance {
+			// an outer deadline of an hour and an inner timeout of a second: the wait always ends through the inner one
+			res := ""
+			f := func() {
+				outer, cancelOuter := zvsync.WithTimeout(context.Background(), time.Hour)
+				defer cancelOuter()
+				inner, cancel := zvsync.WithTimeout(outer, time.Second)
+				defer cancel()
+				if inner.Err() != nil {
+					res = "inner-before-wait"
+					return
+				}
+				zvsync.WaitCancel(inner)
+				if outer.Err() != nil {
+					res = "outer"
+				} else {
+					res = "inner"
+				}
+			}
+			return &sched.Instance{Bodies: []func(){f}, Check: func(r *zvsync.Result) (string, []sched.Finding) {
+				// the outer timer may land late (after the wait ended), but nothing ever has to wait for it
+				return fmt.Sprintf("%s waited-for=%v", res, r.TimerQuiescent), nil
+			}}
+		}},
+		{name: "outer-timer-cancels-derived-wait", outcomes: []string{"outer"}, make: func() *sched.Instance {
+			// only the outer timer is armed; a wait on the outer context through a derived value context ends with it
+			res := ""
+			f := func() {
+				outer, cancelOuter := zvsync.WithTimeout(context.Background(), time.Hour)
+				defer cancelOuter()
+				if d, ok := outer.Deadline(); !ok || time.Until(d) < 50*time.Minute {
+					res = "no-deadline"
+					return
+				}
+				zvsync.WaitCancel(context.WithValue(outer, "k", 1))
+				if outer.Err() != nil {
+					res = "outer"
+				}
+			}
+			return inst([]func(){f}, func() string { return res })
+		}},
 		{name: "trylock-and-tryacquire", outcomes: []string{"1", "2"}, make: func() *sched.Instance {
 			var mu zvsync.Mutex
 			sem := zvsync.NewWeighted(1)
